@@ -266,7 +266,8 @@ func FirstDiff(a, b *Digest) *Diff {
 				_, vb := splitLine(b.Lines[i])
 				own := a.Own[i]
 				if pb, _ := splitLine(b.Lines[i]); pb != pa {
-					vb = b.Lines[i]
+					// the structure below this path changed shape
+					vb = strings.TrimPrefix(b.Lines[i], pa)
 				}
 				d = &Diff{Path: pa, Own: own, Before: va, After: vb}
 			}
